@@ -830,7 +830,7 @@ func c11StyleOps(c *Cfg, goccy bool, s string) {
 		// the two lexical facts about the library that C11_plain_is_string assumes
 		if s != "" {
 			nonString := strings.ContainsAny(lex[1:2], "bnifamde")
-			c.Direct(!(lex[0] == '1' && nonString && !strings.ContainsRune("0123456789+-.~<tTfFnN", rune(s[0]))), "lexer-contract",
+			c.Direct(!(lex[0] == '1' && lex[2] == '1' && nonString && !strings.ContainsRune("0123456789+-.~<tTfFnN", rune(s[0]))), "lexer-contract",
 				fmt.Sprintf("goccy lexer types %q as a non-string scalar (%s) although it does not start with a byte of nonStringStarts: hypothesis hstart of C11_plain_is_string fails", s, lex), map[string]any{"string": s})
 			if libq == "0" && !strings.ContainsAny(s, "\n\r") && (lex[0] != '1' || lex[2] != '1') {
 				c.Count("lex/library-leaves-plain-but-lexer-does-not-read-one-token-back(hlib fails; informational)")
